@@ -65,6 +65,37 @@ def _check_primitives(ctx, P, T):
         if Q.is_call_to(t, "hs_hash32") and t[2][1][0] == "const" and (1 << t[2][1][1]) == size:
             okh = True
     ctx.ob("C17.1 R-BOUND", T.hash, "hash-order-matches-size", okh, "hash function is not hs_hash32(h, order) with 2^order == table size")
+    # the hash is a function of the key's characters only: the byte at key[k] (k > 0) is read only after key[k-1] was read on the
+    # same path and found different from 0 - a loop that reads one byte past the terminator hashes what happens to follow the key
+    from ..core.pathmem import PathEval, a_key
+    kp = ("param", 0, T.hash.params[0]["name"])
+    badl = None
+    nld = 0
+    for v in Q.path_views(ctx, P, T.hash):
+        pe = PathEval(P, T.hash, v, watch_ops=("ld",))
+        if pe.infeasible:
+            continue
+        seen = {}
+        for e in pe.events:
+            if e.kind != "ld":
+                continue
+            ad = e.data["addr"]
+            if set(ad[0]) != {kp} or ad[0][kp] != 1:
+                continue
+            k = ad[1]
+            nld += 1
+            if k > 0 and badl is None:
+                prevv = seen.get(k - 1)
+                ok_ = prevv is not None and any(kind == "ne0" and pos_ < e.pos and a_key(d) in (a_key(prevv), a_key(({l: -c for l, c in prevv[0].items()}, -prevv[1])))
+                                                for (pos_, kind, d) in pe.facts)
+                if not ok_:
+                    badl = (v, e.inst, k)
+            seen[k] = e.data["value"]
+    ctx.ob("C17.1 R-BOUND", T.hash, "hash-reads-no-byte-behind-the-terminator", badl is None and nld >= 2,
+           ("%s reads key[%d] at %s on a path that has not found key[%d] different from 0: for the key that ends there (the empty "
+            "string) the hash depends on the bytes behind the terminator, and equal keys in different buffers hash differently" %
+            (T.hash.srcname, badl[2], badl[1].loc, badl[2] - 1)) if badl else "%d key byte loads, each behind a test of the previous byte" % nld,
+           witness=badl[0].witness() if badl else None)
     hs = P.fn("hs_hash32") if len(P.by_src.get("hs_hash32", [])) == 1 else P.by_src["hs_hash32"][0]
     oks = False
     for v in Q.path_views(ctx, P, hs):
